@@ -568,14 +568,14 @@ func TestVerifC04Swarm(t *testing.T) {
 		for _, v := range cover {
 			before += v
 		}
-		func() {
-			defer func() {
-				if r := recover(); r != nil {
-					tr.Emit("deadlock", "msg", fmt.Sprint(r))
-				}
-			}()
-			synctest.Test(t, func(t *testing.T) { vfC04SwScenario(t, seed, tr, cover) })
-		}()
+		dl, hung := vfc04.RunBubble(t, 25*time.Second, func(t *testing.T) { vfC04SwScenario(t, seed, tr, cover) })
+		if dl != "" {
+			tr.Emit("deadlock", "msg", dl)
+		}
+		if hung != "" {
+			res.Inc("hangs", 1)
+			res.Sample(map[string]any{"scenario_seed": seed, "hung": hung})
+		}
 		after := 0
 		for _, v := range cover {
 			after += v
@@ -586,7 +586,7 @@ func TestVerifC04Swarm(t *testing.T) {
 		res.Count(1, tr.Len())
 		if path != "" {
 			if err := tr.AppendTo(path, map[string]any{"family": "swarm", "cfg": "stub-conns", "plan": fmt.Sprintf("seed=%d", seed), "kind": "sequence",
-				"side": "", "k": 0, "hit": after > before, "stage": "swarm"}); err != nil {
+				"side": "", "k": 0, "hit": after > before, "stage": "swarm", "hang": hung}); err != nil {
 				t.Fatal(err)
 			}
 		}
